@@ -7,7 +7,7 @@ import wire
 import curtsies.window
 from termref import Term, tokenize, enc_ops, enc_rows, enc_array
 from curtsies.window import CursorAwareWindow
-from props.c02 import group, eff_row, enc_term, rand_cells, rand_junk, ATTS, mk_array, container_for
+from props.c02 import group, eff_row, enc_term, rand_cells, rand_junk, ATTS, mk_array, container_for, ArrayMaker, step_opts
 
 PROP = "C07"
 MODULES = ["Curtsies.Properties.C07"]
@@ -147,6 +147,7 @@ def run_history(c):
     use_pyte = c.get("pyte", True) and not any(st[0] == "M" for st in c["steps"])
     out.py = termref.PyteTerm(c["h"], c["w"], c["screen"], c["cursor"][0], c["cursor"][1], c["sb"]) if use_pyte else None
     res = []
+    maker = ArrayMaker(c["w"])
     for idx in range(len(c["steps"])):
         st = c["steps"][idx]
         before = out.ref.state()
@@ -170,7 +171,8 @@ def run_history(c):
             elif st[0] == "X":
                 win.__exit__(None, None, None)
             else:
-                o["ret"] = win.render_to_terminal(mk_array(st[2], st[3] if len(st) > 3 else "list"), tuple(st[1]))
+                o["ret"] = win.render_to_terminal(maker.make(st[2], st[3] if len(st) > 3 else "list",
+                                                             st[4] if len(st) > 4 else None), tuple(st[1]))
                 o["last"] = getattr(win, "_last_cursor_row", None)     # private: representation-level tie only
         except termref.Untokenisable as e:
             o["error"] = str(e)
@@ -417,8 +419,10 @@ def rand_history(r, pyte=True):
         prev = rows
         # the array as a list of FmtStr, an FSArray (rows of one width) or a list of plain str (unformatted rows)
         container, rows = container_for(r, rows, w)
+        opts = step_opts(r, rows, container, w, c["steps"])
+        rows = opts.pop("rows", rows)
         prev, n = rows, len(rows)
-        c["steps"].append(("R", (r.randint(0, max(n - 1, 0)), r.randint(0, w - 1)), rows, container))
+        c["steps"].append(("R", (r.randint(0, max(n - 1, 0)), r.randint(0, w - 1)), rows, opts.pop("container", container), opts))
     c["steps"].append(("X",))
     if r.random() < 0.05:
         # rarely: one row longer than the terminal (the property does not bound row lengths; finding D41)
@@ -428,7 +432,7 @@ def rand_history(r, pyte=True):
             st = c["steps"][k]
             rows = list(st[2])
             rows[r.randrange(len(rows))] = group(rand_cells(r, w + r.randint(1, w + 1)))
-            c["steps"][k] = ("R", st[1], rows, "list")
+            c["steps"][k] = ("R", st[1], rows, "list", {})
     return c
 
 
